@@ -304,6 +304,7 @@ impl Database {
 
         db.ensure_catalog()?;
         db.ensure_system_tables()?;
+        db.seed_next_row_id()?;
 
         let recovery_info = RecoveryInfo {
             frames_recovered,
@@ -531,6 +532,59 @@ impl Database {
             self.save_catalog()?;
         }
 
+        Ok(())
+    }
+
+    /// Row keys come from one in-memory counter shared by all tables. After
+    /// reopening, the counter has to continue above every row key already
+    /// stored, otherwise the first INSERT collides with an existing row.
+    fn seed_next_row_id(&self) -> Result<()> {
+        use crate::btree::BTreeReader;
+        use crate::storage::TableFileHeader;
+
+        let tables: Vec<(String, String)> = {
+            let catalog_guard = self.shared.catalog.read();
+            let Some(catalog) = catalog_guard.as_ref() else {
+                return Ok(());
+            };
+            catalog
+                .schemas()
+                .iter()
+                .flat_map(|(schema_name, schema)| {
+                    schema
+                        .tables()
+                        .keys()
+                        .map(move |table_name| (schema_name.to_string(), table_name.to_string()))
+                })
+                .collect()
+        };
+
+        self.ensure_file_manager()?;
+        let mut file_manager_guard = self.shared.file_manager.write();
+        let Some(file_manager) = file_manager_guard.as_mut() else {
+            return Ok(());
+        };
+
+        let mut max_row_id = 0u64;
+        for (schema_name, table_name) in &tables {
+            if !file_manager.table_exists(schema_name, table_name) {
+                continue;
+            }
+            let storage_arc = file_manager.table_data(schema_name, table_name)?;
+            let storage = storage_arc.read();
+            let root_page = TableFileHeader::from_bytes(storage.page(0)?)?.root_page();
+            let reader = BTreeReader::new(&storage, root_page)?;
+            let cursor = reader.cursor_last()?;
+            if cursor.valid() {
+                if let Ok(bytes) = <[u8; 8]>::try_from(cursor.key()?) {
+                    max_row_id = max_row_id.max(u64::from_be_bytes(bytes));
+                }
+            }
+        }
+
+        self.shared
+            .next_row_id
+            .fetch_max(max_row_id.saturating_add(1), AtomicOrdering::Relaxed);
         Ok(())
     }
 
